@@ -45,7 +45,7 @@ def run(tier, replay=None):
     # ---- MC: tamper mode + export
     if replay:
         obj = json.load(open(replay))["case"]
-        store, cases = obj["store"], obj["cases"]
+        store, cases = obj.get("store"), obj.get("cases", [])
     else:
         res = tlc("MC_C05", "MC_C05_quick.cfg", workers=4, timeout=3600, tags=("CASE", "STORE"), out_name="c05_tamper")
         ck.add_tlc(res)
@@ -58,17 +58,20 @@ def run(tier, replay=None):
             raise ToolError("MC_C05_quick: nothing exported")
         store = dict(stores[0], kind="store")
         cases.sort(key=lambda r: (r["kind"], r["field"], r["variant"], r["pos"]))
-    extra = [] if replay else [{"kind": "btr"}, {"kind": "suffix"}] + [
+    replay_random = [dict(obj["random"], kind="random")] if replay and obj.get("random") else []
+    extra = replay_random if replay else [{"kind": "btr"}, {"kind": "suffix"}] + [
         {"kind": "random", "seed": ck.seed * 100 + i, "worldlines": w, "ticks": t} for i, (w, t) in enumerate(RANDOM[tier])]
-    cin = write_ndjson(os.path.join(WORK, "c05_tamper.cases"), [store] + cases + extra)
+    head = [store] if store else []
+    cin = write_ndjson(os.path.join(WORK, "c05_tamper.cases"), head + cases + extra)
     cout = os.path.join(WORK, "c05_tamper.results")
     trace = os.path.join(WORK, "c05_trace.ndjson")
     harness(binp, ["c05", cin, cout, trace], timeout=7200)
     results = read_ndjson(cout)
-    if len(results) != 1 + len(cases) + len(extra):
+    if len(results) != len(head) + len(cases) + len(extra):
         raise ToolError("harness result count mismatch")
-    if results[0]["verdict"] != "ok":
+    if head and results[0]["verdict"] == "tool_error":
         raise ToolError(f"the model's store could not be produced by the real runtime: {results[0].get('detail')}")
+    multi_head = results[0].get("multi_head_superticks", 0) if head else 0
     # model table: catalogue item -> predicted outcome classes
     table = {}
     unbound_pred = set()
@@ -94,7 +97,12 @@ def run(tier, replay=None):
             seen_keys[k] = 1
             ck.violation(k, f["detail"], case_obj)
 
-    for c, r in zip(cases, results[1:1 + len(cases)]):
+    # the runtime's own store, before any tampering: chain clause + every tick re-verifies to the live result
+    if head:
+        report(results[0].get("findings", []), {"store": store, "cases": []})
+    for c, r in zip(cases, results[len(head):len(head) + len(cases)]):
+        if r["verdict"] == "skip":
+            continue
         evaluations += 1
         if r["verdict"] == "tool_error":
             raise ToolError(f"case {c['kind']} {c['field']} {c['variant']} {c['pos']}: {r.get('detail')}")
@@ -107,9 +115,12 @@ def run(tier, replay=None):
             if len(ck.notes) < 8:
                 ck.notes.append({"model_drift": r["drift"][:3], "case": {k: c[k] for k in ("kind", "pos", "field", "variant")}})
     rand_stats = {"histories": 0, "cases": 0, "btr_evaluations": 0, "suffix_evaluations": 0, "class_drift": []}
-    for spec, r in zip(extra, results[1 + len(cases):]):
+    for spec, r in zip(extra, results[len(head) + len(cases):]):
         if r["verdict"] == "tool_error":
             raise ToolError(f"{spec}: {r.get('detail')}")
+        if r["verdict"] == "skip":
+            continue
+        multi_head += r.get("multi_head_superticks", 0)
         if spec["kind"] in ("btr", "suffix"):
             evaluations += r.get("evaluations", 0)
             rand_stats[spec["kind"] + "_evaluations"] += r.get("evaluations", 0)
@@ -144,7 +155,10 @@ def run(tier, replay=None):
             evs = read_ndjson(trace)
             ck.violation("trace:appended_entry", f"ProvenanceTrace rejects event {idx} ({tr.violation}): {evs[idx - 1] if 0 < idx <= len(evs) else '?'}",
                          {"trace_tail": evs[max(0, idx - 10):idx]})
-    if not any(k.startswith("alter|outputs") for k in table) or not unbound_pred:
+    if not replay and multi_head == 0:
+        raise ToolError("vacuous: no SuperTick committed two heads of one worldline")
+    ck.cov["superticks_with_two_heads_of_one_worldline"] = multi_head
+    if not replay and (not any(k.startswith("alter|outputs") for k in table) or not unbound_pred):
         raise ToolError("vacuous: the catalogue lost the unbound fields")
     ck.sample({"model_predicts_accepted_with_different_result": sorted(unbound_pred)})
     ck.sample({"distinct_finding_keys": seen_keys})
@@ -162,6 +176,7 @@ def run(tier, replay=None):
                        "tampering = single-field alteration or verbatim structural move; an attacker who recomputes hashes consistently is out of scope "
                        "(a transplant with every id rewritten is accepted only as the donor worldline's own verified history - checked)",
                        "the verifier rebuilding worldline w refuses an entry whose worldline_id is not w (append_local_commit routes by the entry's own id)",
+                       "a checkpoint served by a foreign ProvenanceStore is only swapped in its graph state (different root); its replay metadata (tick history, last materialization) is trusted by restore_replay_base and not tampered here",
                        "TickReceipt / WorldlineState have no public constructors: tampered receipts / checkpoint states are real ones taken from another tick, worldline or twin store",
                        "recorded outputs are synthesized on the entries (rules cannot emit to the bus)", "BLAKE3 collision-freeness",
                        "suffix import uses a provenance-backed admission context (local shell digest = derive_witnessed_suffix_shell_digest)"]
